@@ -154,18 +154,26 @@ func (tb *table) pool(proxy int) *fakepool.Pool {
 	return p
 }
 
+// genStart draws current_value: the documented -99, small values, and the neighbourhoods of the
+// widths an implementation could wrongly parse with (2^31, 2^32, 2^53, 2^62); the column may be BIGINT.
+func genStart(t *rapid.T) int64 {
+	switch rapid.IntRange(0, 5).Draw(t, "sk") {
+	case 0:
+		return -99
+	case 1:
+		return int64(rapid.IntRange(-10, 10).Draw(t, "start"))
+	case 2:
+		return int64(rapid.IntRange(0, 100000).Draw(t, "start"))
+	case 3:
+		return int64(rapid.SampledFrom([]int{-999999999, -1000000000, 0, 1<<15 - 3, 1<<16 - 3}).Draw(t, "start"))
+	}
+	b := rapid.SampledFrom([]int64{1 << 31, 1 << 31, 1 << 32, 1 << 53, 1 << 62, 1<<63 - 1000}).Draw(t, "startb")
+	return b + int64(rapid.IntRange(-12, 2).Draw(t, "startd"))
+}
+
 func genSeq(t *rapid.T) seqCase {
 	c := seqCase{Proxies: rapid.IntRange(1, 3).Draw(t, "proxies"), Incr: int64(rapid.IntRange(1, 5).Draw(t, "incr"))}
-	switch rapid.IntRange(0, 3).Draw(t, "sk") {
-	case 0:
-		c.Start = -99
-	case 1:
-		c.Start = int64(rapid.IntRange(-10, 10).Draw(t, "start"))
-	case 2:
-		c.Start = int64(rapid.IntRange(0, 100000).Draw(t, "start"))
-	default:
-		c.Start = int64(rapid.SampledFrom([]int{-999999999, -1000000000, 1<<31 - 200, 0}).Draw(t, "start"))
-	}
+	c.Start = genStart(t)
 	if rapid.IntRange(0, 9).Draw(t, "mk") == 0 {
 		c.MaxLimit = c.Start + int64(rapid.IntRange(1, 40).Draw(t, "ml"))
 	}
@@ -196,7 +204,7 @@ func inGrants(g [][2]int64, v int64) bool {
 }
 
 func checkSeq(c seqCase) (o pbt.Outcome) {
-	if c.Proxies < 1 || c.Proxies > 8 || c.Incr < 1 || c.Incr > 1000 || len(c.Ops) > 5000 || c.Start > 1<<40 || c.Start < -(1<<40) {
+	if c.Proxies < 1 || c.Proxies > 8 || c.Incr < 1 || c.Incr > 1000 || len(c.Ops) > 5000 || c.Start > 1<<63-900 || c.Start < -(1<<40) {
 		o.Skip = "outside the modelled domain"
 		return
 	}
@@ -214,6 +222,9 @@ func checkSeq(c seqCase) (o pbt.Outcome) {
 	okFetches := map[int]int{}
 	faulty, values, unexpectedErr, limitErr := 0, 0, 0, 0
 	o.Labels = append(o.Labels, fmt.Sprintf("proxies_%d", c.Proxies))
+	if c.Start >= 1<<31-400 {
+		o.Labels = append(o.Labels, "start_beyond_int32")
+	}
 	if c.MaxLimit > 0 {
 		o.Labels = append(o.Labels, "max_limit_set")
 	}
@@ -314,7 +325,7 @@ func checkSeq(c seqCase) (o pbt.Outcome) {
 
 func TestC34Sequential(t *testing.T) {
 	pbt.Run(t, pbt.Spec{ID: "C34", Sub: "sequential", Quick: 5000, Thorough: 50000,
-		Rule:  "1-3 MySQLSequence objects over fake master pools sharing one simulated sequence row (start -99, small, 0-100000 or extreme; increment 1-5; 10%: a max limit); 1-60 NextSeq calls on drawn proxies; each call carries the outcome of the block fetch it may cause (half of the histories fault-free, else 5-30% faults: Get errors, USE error, SQL error, missing row default '-999999999,null', non-numeric / float fields, 1 or 3 fields, empty string, zero / negative increment, no rows, NULL); oracle: no value twice, strictly increasing per proxy, every value inside a block (cur, cur+incr] the table granted to that proxy, a faulty fetch yields an error; non-trivial = at least 2 values returned and (2 proxies with >= 2 granted blocks each, or a faulty fetch happened)",
+		Rule:  "1-3 MySQLSequence objects over fake master pools sharing one simulated sequence row (current_value -99, small, 0-100000, or within -12..+2 of 2^31, 2^32, 2^53, 2^62 and near 2^63; increment 1-5; 10%: a max limit); 1-60 NextSeq calls on drawn proxies; each call carries the outcome of the block fetch it may cause (half of the histories fault-free, else 5-30% faults: Get errors, USE error, SQL error, missing row default '-999999999,null', non-numeric / float fields, 1 or 3 fields, empty string, zero / negative increment, no rows, NULL); oracle: no value twice, strictly increasing per proxy, every value inside a block (cur, cur+incr] the table granted to that proxy, a faulty fetch yields an error; non-trivial = at least 2 values returned and (2 proxies with >= 2 granted blocks each, or a faulty fetch happened)",
 		Floor: 0.3}, genSeq, checkSeq)
 }
 
@@ -332,7 +343,7 @@ type concCase struct {
 
 func genConc(t *rapid.T) concCase {
 	c := concCase{Proxies: rapid.IntRange(1, 3).Draw(t, "proxies"), Incr: int64(rapid.IntRange(1, 5).Draw(t, "incr")),
-		Start: int64(rapid.IntRange(-100, 1000).Draw(t, "start")), Calls: rapid.IntRange(5, 40).Draw(t, "calls")}
+		Start: genStart(t), Calls: rapid.IntRange(5, 40).Draw(t, "calls")}
 	w := rapid.IntRange(2, 6).Draw(t, "w")
 	for i := 0; i < w; i++ {
 		c.Workers = append(c.Workers, rapid.IntRange(0, c.Proxies-1).Draw(t, "wp"))
@@ -344,7 +355,7 @@ func genConc(t *rapid.T) concCase {
 }
 
 func checkConc(c concCase) (o pbt.Outcome) {
-	if c.Proxies < 1 || c.Proxies > 8 || c.Incr < 1 || c.Incr > 1000 || len(c.Workers) > 32 || len(c.Workers) < 1 || c.Calls < 1 || c.Calls > 1000 {
+	if c.Proxies < 1 || c.Proxies > 8 || c.Incr < 1 || c.Incr > 1000 || len(c.Workers) > 32 || len(c.Workers) < 1 || c.Calls < 1 || c.Calls > 1000 || c.Start > 1<<63-900 || c.Start < -(1<<40) {
 		o.Skip = "outside the modelled domain"
 		return
 	}
